@@ -1166,6 +1166,66 @@ def p5_inline_temps(fn, keep=None):
     return fn
 
 
+# ------------------------------------------------------------------------------------------ RD1
+def rd1_reduce(block):
+    """RD1: `v = functools.reduce(lambda a, x: E, SEQ, INIT)` is the fold `v = INIT; for x in SEQ: v = E[a := v]`."""
+    out = []
+    for s in block:
+        v = s.value if isinstance(s, ast.Assign) and len(s.targets) == 1 and isinstance(s.targets[0], ast.Name) else None
+        if isinstance(v, ast.Call) and ast.unparse(v.func) in ('functools.reduce', 'reduce') and len(v.args) == 3 and not v.keywords \
+                and isinstance(v.args[0], ast.Lambda) and len(v.args[0].args.args) == 2 and not v.args[0].args.defaults \
+                and not any(isinstance(x, (ast.Lambda, ast.Await, ast.NamedExpr)) for x in ast.walk(v.args[0].body)):
+            lam = v.args[0]
+            acc, el = lam.args.args[0].arg, lam.args.args[1].arg
+            tgt = s.targets[0].id
+            free = {x.id for x in ast.walk(lam.body) if isinstance(x, ast.Name)}
+            if tgt in free - {acc} or el == tgt:
+                out.append(s)
+                continue
+            body = _Subst({acc: ast.Name(id=tgt, ctx=ast.Load())}).visit(copy.deepcopy(lam.body)) if acc != tgt else copy.deepcopy(lam.body)
+            init = ast.copy_location(ast.Assign(targets=[ast.Name(id=tgt, ctx=ast.Store())], value=v.args[2]), s)
+            step = ast.Assign(targets=[ast.Name(id=tgt, ctx=ast.Store())], value=body)
+            loop = ast.copy_location(ast.For(target=ast.Name(id=el, ctx=ast.Store()), iter=v.args[1], body=[step], orelse=[]), s)
+            for x in ast.walk(loop):
+                if not hasattr(x, 'lineno'):
+                    ast.copy_location(x, s)
+            out.extend([init, loop])
+            continue
+        out.append(s)
+    return out
+
+
+# ------------------------------------------------------------------------------------------ MP1
+class _MapComp(ast.NodeTransformer):
+    """MP1: `map(F, A)` with one iterable and a callable given by name / attribute is the generator `(F(v) for v in A)`;
+    `list(map(F, A))` is `[F(v) for v in A]`.  (F is evaluated once in both forms; the rules then see a call site with a binder
+    instead of a callable passed around.)"""
+    n = 0
+
+    def visit_Call(self, node):
+        self.generic_visit(node)
+        f = node.func
+        if isinstance(f, ast.Name) and f.id in ('list', 'tuple') and len(node.args) == 1 and not node.keywords and isinstance(node.args[0], ast.GeneratorExp) \
+                and getattr(node.args[0], '_from_map', False) and f.id == 'list':
+            g = node.args[0]
+            return ast.copy_location(ast.ListComp(elt=g.elt, generators=g.generators), node)
+        if isinstance(f, ast.Name) and f.id == 'map' and len(node.args) == 2 and not node.keywords and isinstance(node.args[0], (ast.Name, ast.Attribute)) \
+                and not isinstance(node.args[1], ast.Starred):
+            v = '_m'
+            call = ast.Call(func=node.args[0], args=[ast.Name(id=v, ctx=ast.Load())], keywords=[])
+            g = ast.GeneratorExp(elt=call, generators=[ast.comprehension(target=ast.Name(id=v, ctx=ast.Store()), iter=node.args[1], ifs=[], is_async=0)])
+            g._from_map = True
+            ast.copy_location(g, node)
+            for x in ast.walk(g):
+                if not hasattr(x, 'lineno'):
+                    ast.copy_location(x, node)
+            return g
+        return node
+
+    def visit_FunctionDef(self, n):
+        return self.generic_visit(n)
+
+
 # ------------------------------------------------------------------------------------------ P6 / P7
 def p6_unpack1(block):
     for s in block:
@@ -1390,6 +1450,9 @@ def canon_function(fn_node, level=None, protocol=False, vocab=None, refsigs=None
             if not ch:
                 break
     _walk_blocks(fn, p6_unpack1)
+    _walk_blocks(fn, rd1_reduce)
+    mc = _MapComp()
+    fn.body = [mc.visit(s) for s in fn.body]
     o = _Orient()
     fn.body = [o.visit(s) for s in fn.body]
     t = _Tests()
